@@ -1,4 +1,62 @@
+//! vf-db: collection-level checks (C01-C06).
+mod c01;
+mod c02;
+mod hist;
+mod world;
+
+use vf_core::Runner;
+
 fn main() {
-    eprintln!("vf-db: not built yet");
-    std::process::exit(2);
+    let prop = std::env::args().nth(1).unwrap_or_default();
+    match prop.as_str() {
+        "probe" => probe(),
+        "C01" => {
+            let mut r = Runner::from_env("C01", "fault_enumeration");
+            c01::run(&mut r);
+            r.finish();
+        }
+        "C02" => {
+            let mut r = Runner::from_env("C02", "exploration");
+            c02::run_c02(&mut r);
+            r.finish();
+        }
+        other => {
+            eprintln!("usage: vf-db <C01..C06> <quick|thorough|replay FILE> (got {other:?})");
+            std::process::exit(2);
+        }
+    }
+    let _ = Runner::from_env;
+}
+
+fn probe() {
+    use world::*;
+    vf_core::block_on(async {
+        install_clocks(1_700_000_000_000);
+        let be = Backend::new(BackendKind::Meta);
+        let db = connect(be.store(), false).await.unwrap();
+        let idx = IndexSet::all();
+        let col = open(&db, &idx).await.unwrap();
+        let spec = DocSpec { name: 1, age: 2, score: -1, tags: vec![1, 1, 2], opt: None, ukeys: vec![3], attrs: vec![(1, 2)], body: vec![0, 1], emb: 9 };
+        let f = spec.fields();
+        let d = make_doc(&col, &f).unwrap();
+        let id = col.add(d).await.unwrap();
+        println!("added {id}");
+        let got = col.get(id).await.unwrap();
+        println!("read back == written: {}", doc_fields(&got) == f);
+        println!("{:?}", doc_fields(&got));
+        let mut model = Model::new();
+        model.insert(id, f.clone());
+        println!("check: {:?}", check_indexes(&col, &model, &idx, "probe").await);
+        // duplicate unique
+        let d2 = make_doc(&col, &f).unwrap();
+        println!("dup add: {:?}", col.add(d2).await.map_err(|e| e.to_string()));
+        println!("check after rejected: {:?}", check_indexes(&col, &model, &idx, "probe").await);
+        println!("mutations so far: {}", be.ctl.mutation_count());
+        col.flush(anda_db::unix_ms()).await.unwrap();
+        println!("mutations after flush: {}", be.ctl.mutation_count());
+        db.close().await.unwrap();
+        let db = connect(be.store(), false).await.unwrap();
+        let col = open(&db, &idx).await.unwrap();
+        println!("check after reopen: {:?}", check_indexes(&col, &model, &idx, "probe").await);
+    });
 }
